@@ -46,18 +46,24 @@ type Lines []*Line
 func (l Lines) Align() {
 	var maxLength int
 
+	// A compound statement is a buffer of several lines: its trailing comment follows the last one,
+	// so that is the width to align (the length of the whole text is not a column)
 	for i := range l {
-		if len(l[i].Buffer) > maxLength {
-			maxLength = len(l[i].Buffer)
+		if n := lastLineLength(l[i].Buffer); n > maxLength {
+			maxLength = n
 		}
 	}
 
 	// Alignment
-	format := fmt.Sprintf("%%-%ds", maxLength)
-
 	for i := range l {
-		l[i].Buffer = fmt.Sprintf(format, l[i].Buffer)
+		if pad := maxLength - lastLineLength(l[i].Buffer); pad > 0 {
+			l[i].Buffer += strings.Repeat(" ", pad)
+		}
 	}
+}
+
+func lastLineLength(s string) int {
+	return len(s) - (strings.LastIndexByte(s, '\n') + 1)
 }
 
 // Implements Alignable interface
